@@ -1,5 +1,8 @@
 """The two constraint generators of Function as programs (R-GENPROG).
 
+(The first list of the model has four samples: an unnamed point, two evaluations at one named point, and a sample that shares its gradient
+object with the first one.)
+
 `add_constraints_from_one_list_of_points` and `add_constraints_from_two_lists_of_points` are unrolled by sa/miniint.py on small sample lists that
 contain what ordinary models do not: two samples recorded at the *same* point object (a multi-valued operator evaluated twice), which therefore
 carry the same label, next to an unnamed point; the same list on both sides (with and without the symmetry flag) and two different lists.  The
@@ -41,6 +44,9 @@ def _model(fname):
     u1 = SymObj("Point", label="u1", name=None)
     mk = lambda x, k: (x, SymObj("Point", label="g%d" % k, name=None), SymObj("Expression", label="f%d" % k, name=None))
     list1 = [mk(x0, 0), mk(x1, 1), mk(x1, 2)]            # the operator was evaluated twice at x1
+    x3 = SymObj("Point", label="x3", name="x3")
+    list1.append((x3, list1[0][1], SymObj("Expression", label="f3", name=None)))       # another sample with the very same gradient object (two
+    #                                                                                    stationary points recorded with one shared zero point)
     list2 = [mk(u0, 3), mk(u1, 4)]
     me = SymObj("Function", label="self", name=fname, counter=7, list_of_class_constraints=[], tables_of_constraints={})
     return me, list1, list2
@@ -87,7 +93,8 @@ def _run(fn, me, bindings):
                 return SymObj("DataFrame", label="df", data=data, columns=kw.get("columns", args[2] if len(args) > 2 else None),
                               index=kw.get("index", args[1] if len(args) > 1 else None))
         return NotImplemented
-    env = {params_of(fn)[0]: me, "str": ("type", "str")}
+    # class-level state: the counter has moved on since this function was created (it is the number of functions, not this function's own number)
+    env = {params_of(fn)[0]: me, "str": ("type", "str"), "Function.counter": 9, "Point.counter": 12, "Expression.counter": 14}
     env.update(bindings)
     it = _Interp(env, on_call=on_call)
     it.home = (fn._module.repo, fn._module, "Function")
@@ -337,4 +344,18 @@ def r_reader(ctx):
                 break
     ctx.ob("R-GENPROG", "Function.get_class_constraints_duals (unrolled)", msg is None,
            "cell (i, j) of every returned table is the multiplier of the constraint of cell (i, j), labels kept" if msg is None else msg, loc(fn, fn))
+    # a cell that is neither a constraint nor a number is rejected
+    me2 = SymObj("Function", label="self", tables_of_constraints={"odd": mkdf([[mkc(7, 0), "not a constraint"]], ["a", "b"], [0])})
+    env2 = dict(base_env)
+    env2[params_of(fn)[0]] = me2
+    it2 = _I(env2, on_call=on_call)
+    it2.home = (repo, fn._module, "Function")
+    raised = False
+    try:
+        it2.run(fn.body)
+    except AnalysisError as ex:
+        raised = "the index program raises" in str(ex)
+    ctx.ob("R-GENPROG", "Function.get_class_constraints_duals::a cell of another kind (unrolled)", raised,
+           "a cell that is neither a constraint nor a number raises" if raised else "a cell of another kind (a string) is accepted into the table of multipliers", loc(fn, fn))
+    ctx._reader_prog = msg is None and raised
     return 1
